@@ -16,6 +16,9 @@
 #define DEP_MAX_ALLOC 3
 #define DEP_MAX_MZ 12
 #define DEP_MAX_KDF 2
+#ifndef DEP_PW_COPY
+#define DEP_PW_COPY 64          /* how many password bytes the KDF stub keeps for comparison */
+#endif
 #ifndef DEP_STR_MAX
 #define DEP_STR_MAX 24          /* bound on strings the normaliser stubs return */
 #endif
@@ -36,7 +39,7 @@ static int L_rand_calls; static void* L_rand_ptr; static size_t L_rand_n;
 static int L_time_calls;
 static int L_kdf_calls;
 static struct {
-    const uint8_t* pw; size_t pwlen; uint8_t pw_copy[64];
+    const uint8_t* pw; size_t pwlen; uint8_t pw_copy[DEP_PW_COPY];
     const uint8_t* salt; size_t saltlen; uint8_t salt_copy[32];
     uint64_t iter; uint8_t* key; size_t keylen;
 } L_kdf[DEP_MAX_KDF];
